@@ -289,6 +289,9 @@ impl Runner {
                     let cache = self.iset.cache();
                     for _ in 0..k {
                         let iset = &mut self.iset;
+                        // (the chain ends with the step that FINDS the EXEC stack empty - decided on the state, whatever
+                        // step() returns)
+                        let empty_before = st.exec_stack.size() == 0;
                         let r = catch_unwind(AssertUnwindSafe(|| PushInterpreter::step(&mut st, iset, &cache)));
                         let mut ev = json!({"id": id, "i": i, "act": {"a": "step"}});
                         if let Some(p) = first.take() {
@@ -319,7 +322,7 @@ impl Runner {
                                 ev["post"] = project(&st);
                                 ev["ret"] = json!(done);
                                 writeln!(out, "{}", ev).unwrap();
-                                if done {
+                                if empty_before {
                                     // the step that finds EXEC empty is recorded, then the chain ends
                                     i += 1;
                                     break;
